@@ -14,8 +14,8 @@ from ..common import Result, make_anim_file
 ID = "C09"
 LEVEL = "exploration"
 NEEDS_PTY = True
-N_PAIRS = {"quick": 1200, "thorough": 30000}
-N_IMG = {"quick": 60, "thorough": 2500}
+N_PAIRS = {"quick": 1200, "thorough": 120000}
+N_IMG = {"quick": 60, "thorough": 10000}
 RULE = (
     "paired iterators over the same configuration and operation history, one with caching enabled and one with "
     "caching disabled: RenderIterator (C08's history generator, loops >= 2 or infinite, cache limits around the "
